@@ -982,6 +982,7 @@ class WorldGen:
         cfg = {"awk_mode": k["awk_mode"], "errstate": k["errstate"], "warnfilter": k["warnfilter"],
                "printopts": k["printopts"], "simlib": bool(faults) and any(f["seam"] in ("lib", "alloc") for f in faults)}
         w = {"kind": "world", "seed": self.seed, "config": cfg, "pool": self.pool, "progs": progs, "faults": faults,
+             "cold": self.tier == "thorough" and self.rng.random() < 0.01,
              "sched": k["sched"], "knobs": {kk: k[kk] for kk in ("nthreads", "nops", "backends", "cats", "faults", "hazard_values", "hazard_findings", "register_midrun")}}
         return w
 
